@@ -286,11 +286,33 @@ func (s *Solver) solve(o *Oblig) {
 		if res.verdict == "unsat" {
 			// a refutation of the hypotheses must be confirmed by a second solver before the
 			// path is declared vacuous (a single unstable answer is recorded, not acted on)
+			// (under ANOTHER random seed: z3 4.8 and z3 5.1 share code, and both have answered `unsat`
+			// under one and the same seed on a query that no other seed refutes - DESIGN 11.4)
 			confirmed := false
-			for _, sv := range solvers[1:] {
-				r2 := runSolver(sv, file, 10, s.seed)
+			type alt struct {
+				sv   solverSpec
+				seed int
+			}
+			// A genuine contradiction (11.6b: cores of four assertions) is refuted at once under every
+			// seed; the spurious refutations seen come and go with the seed.  So: cvc5 agrees, or z3
+			// refutes under two further seeds as well.
+			z3More := 0
+			for _, a := range []alt{{solvers[0], s.seed + 15485863}, {solvers[0], s.seed + 32452843}, {solvers[1], s.seed}} {
+				r2 := runSolver(a.sv, file, 10, a.seed)
+				r2.solver += fmt.Sprintf("(seed %d)", a.seed)
 				all = append(all, r2)
-				if r2.verdict == "unsat" {
+				if r2.verdict != "unsat" {
+					if a.sv.name == solvers[0].name {
+						break // one z3 seed does not refute: not robust; cvc5 alone would not finish either
+					}
+					continue
+				}
+				if a.sv.name == solvers[1].name {
+					confirmed = true
+					break
+				}
+				z3More++
+				if z3More == 2 {
 					confirmed = true
 					break
 				}
@@ -330,8 +352,8 @@ func (s *Solver) solve(o *Oblig) {
 		altSeeds := []int{s.seed + 7919, s.seed + 104729, s.seed + 1299709}
 		ch := make(chan solveResult, 4+len(altSeeds))
 		pctx, pcancel := context.WithCancel(context.Background())
-		for _, sv := range solvers[1:] {
-			go func(sv solverSpec) { ch <- runSolverCtx(pctx, sv, file, t2, s.seed) }(sv)
+		for i, sv := range solvers[1:] {
+			go func(sv solverSpec, sd int) { ch <- runSolverCtx(pctx, sv, file, t2, sd) }(sv, s.seed+i*86028121)
 		}
 		for _, sd := range altSeeds {
 			go func(sd int) {
@@ -470,7 +492,7 @@ func (s *Solver) confirmUnsat(file string, first solveResult, firstSeed int, bud
 		sv   solverSpec
 		seed int
 	}
-	alts := []alt{{solvers[1], s.seed}, {solvers[2], s.seed}, {solvers[0], firstSeed + 32452843}, {solvers[0], firstSeed + 49979687}}
+	alts := []alt{{solvers[1], s.seed}, {solvers[2], firstSeed + 86028121}, {solvers[0], firstSeed + 32452843}, {solvers[0], firstSeed + 49979687}}
 	ch := make(chan solveResult, len(alts))
 	pctx, pcancel := context.WithCancel(context.Background())
 	defer pcancel()
@@ -538,7 +560,7 @@ func (s *Solver) solveUnreachable(o *Oblig) {
 			sv   solverSpec
 			seed int
 		}
-		alts := []alt{{solvers[0], s.seed + 7919}, {solvers[1], s.seed}, {solvers[2], s.seed}, {solvers[0], s.seed + 104729}}
+		alts := []alt{{solvers[0], s.seed + 7919}, {solvers[1], s.seed}, {solvers[2], s.seed + 86028121}, {solvers[0], s.seed + 104729}}
 		for _, a := range alts {
 			r := runSolver(a.sv, file, 10, a.seed)
 			nq++
